@@ -65,6 +65,8 @@ pub struct Alpha {
     pub pub_ack_variants: Vec<(u8, u8)>,
     pub sub_ack_variants: Vec<(u8, u8)>,
     pub holds: bool,
+    /// any submitted pending operation may be held (not polled even when woken), not only a QoS 2 publish between its phases
+    pub holds_any: bool,
     pub spurious: bool,
     pub drops: bool,
     pub create_unpolled: bool,
@@ -92,6 +94,7 @@ impl Default for Alpha {
             pub_ack_variants: vec![(0, 0), (2, 1)],
             sub_ack_variants: vec![(0, 0), (3, 1)],
             holds: false,
+            holds_any: false,
             spurious: false,
             drops: false,
             create_unpolled: false,
@@ -112,7 +115,7 @@ impl Default for Alpha {
 }
 
 pub fn sub_ops_on_wire(w: &World) -> Vec<usize> {
-    (0..w.m.len()).filter(|&i| w.m[i].kind == Kind::Sub && w.m[i].req_wire.is_some()).collect()
+    (0..w.m.len()).filter(|&i| w.m[i].kind == Kind::Sub && w.m[i].registered).collect()
 }
 
 pub fn enabled(w: &World, a: &Alpha) -> Vec<Act> {
@@ -161,7 +164,7 @@ pub fn enabled(w: &World, a: &Alpha) -> Vec<Act> {
         if alive && a.holds {
             if w.sim.ops[i].held {
                 v.push(Act::Release(i));
-            } else if w.m[i].submitted && w.m[i].kind == Kind::Pub2 && w.m[i].req_wire.is_some() && !w.m[i].ack1 {
+            } else if w.m[i].submitted && (a.holds_any || (w.m[i].kind == Kind::Pub2 && w.m[i].req_wire.is_some() && !w.m[i].ack1)) {
                 // the interesting delay: between the two phases of a QoS 2 publish
                 v.push(Act::Hold(i));
             }
